@@ -714,10 +714,82 @@ func init() {
 					id, ok := ast.Unparen(ce.Fun).(*ast.Ident)
 					return ok && id.Name == "len" && identObj(info, ce.Args[0]) == textObj
 				}
+				// canonFlag: e is a boolean local that is a result of a same-package predicate helper handed the
+				// literal — `f, ok := canonicalFloat(text)` — and every return of the helper gives, in that
+				// position, the constant false or the canonical comparison itself (of ITS parameter): the flag
+				// is false exactly when ParseFloat failed or the literal is not appendJSONFloat's rendering
+				canonFlag := func(e ast.Expr) bool {
+					o := identObj(info, e)
+					if o == nil {
+						return false
+					}
+					if bt, ok := o.Type().Underlying().(*types.Basic); !ok || bt.Kind() != types.Bool {
+						return false
+					}
+					dc, idx, ndef := definingCall(info, fd.Body, o)
+					if dc == nil || ndef != 1 {
+						return false
+					}
+					h := originOf(Callee(info, dc))
+					if h == nil || h.Pkg() != u.Obj.Pkg() {
+						return false
+					}
+					hd := c.declOf[h]
+					if hd == nil || hd.Body == nil {
+						return false
+					}
+					hinfo := c.pkgOf[hd].TypesInfo
+					hs := h.Type().(*types.Signature)
+					var hText types.Object
+					for i, a := range dc.Args {
+						if identObj(info, a) == textObj && i < hs.Params().Len() {
+							hText = hs.Params().At(i)
+						}
+					}
+					if hText == nil {
+						return false
+					}
+					good, ncanon := true, 0
+					for _, rs := range returnsOf(hd.Body) {
+						if idx >= len(rs.Results) {
+							good = false
+							continue
+						}
+						r := ast.Unparen(rs.Results[idx])
+						if isBoolConst(hinfo, r, false) {
+							continue
+						}
+						be, ok := r.(*ast.BinaryExpr)
+						if !ok || be.Op != token.EQL {
+							good = false
+							continue
+						}
+						side := func(a, b ast.Expr) bool {
+							if identObj(hinfo, b) != hText {
+								return false
+							}
+							for _, ce := range callsIn(a, false) {
+								if originOf(Callee(hinfo, ce)) == app {
+									return true
+								}
+							}
+							return false
+						}
+						if side(be.X, be.Y) || side(be.Y, be.X) {
+							ncanon++
+						} else {
+							good = false
+						}
+					}
+					return good && ncanon > 0
+				}
 				cls := func(e ast.Expr) (string, bool) {
 					e = ast.Unparen(e)
 					if isCanonCmp(e) {
 						return "canon", e.(*ast.BinaryExpr).Op == token.NEQ
+					}
+					if canonFlag(e) {
+						return "canon", false
 					}
 					be, ok := e.(*ast.BinaryExpr)
 					if !ok {
@@ -805,7 +877,7 @@ func init() {
 					}
 				}
 				ast.Inspect(fd.Body, func(n ast.Node) bool {
-					if e, ok := n.(ast.Expr); ok && isCanonCmp(e) {
+					if e, ok := n.(ast.Expr); ok && (isCanonCmp(e) || canonFlag(e)) {
 						sawCanon = true
 					}
 					return true
